@@ -6,6 +6,7 @@ use crate::gen_dict;
 use crate::gen_fault;
 use crate::gen_flow;
 use crate::gen_stream;
+use crate::gen_typed;
 use crate::rng::{mix3, tag};
 use crate::run::*;
 use serde::{Deserialize, Serialize};
@@ -52,6 +53,14 @@ pub fn generate(profile: &str, seed: u64, index: u64) -> Generated {
         }
         "flow" => {
             let o = gen_flow::generate(seed, fault_free);
+            Generated {
+                script: o.script,
+                kinds: o.kinds,
+                nontrivial: o.nontrivial,
+            }
+        }
+        "typed" => {
+            let o = gen_typed::generate(seed, fault_free);
             Generated {
                 script: o.script,
                 kinds: o.kinds,
@@ -464,6 +473,7 @@ pub fn profiles_for(property: &str, tier: &str) -> Vec<(&'static str, u64)> {
         "C05" => vec![("flow", if thorough { 2_000_000 } else { 120_000 })],
         "C09" => vec![("dict", if thorough { 3_000_000 } else { 200_000 })],
         "C11" => vec![("stream", if thorough { 3_000_000 } else { 200_000 })],
+        "C12" => vec![("typed", if thorough { 3_000_000 } else { 200_000 })],
         "C14" => {
             if thorough {
                 vec![
